@@ -359,6 +359,38 @@ func init() {
 		}
 		return FalseT
 	})
+	in("errors.As", func(st *State, c *frame, fn *ssa.Function, a []Value) Value {
+		e, target := a[0].(Iface), a[1].(Iface)
+		if target.T == nil {
+			panic(goPanic{Iface{T: types.Typ[types.String], V: "errors: target cannot be nil"}})
+		}
+		pt, ok := target.T.Underlying().(*types.Pointer)
+		tp, _ := target.V.(*Value)
+		if !ok || tp == nil {
+			panic(goPanic{Iface{T: types.Typ[types.String], V: "errors: target must be a non-nil pointer"}})
+		}
+		elem := pt.Elem()
+		iface, isIface := elem.Underlying().(*types.Interface)
+		for n := 0; e.T != nil && n < 20; n++ {
+			if isIface {
+				if st.implements(e.T, iface) {
+					*tp = e
+					return TrueT
+				}
+			} else if types.Identical(e.T, elem) {
+				*tp = copyVal(e.V)
+				return TrueT
+			}
+			if st.hasMethod(e.T, "As") {
+				m := st.lookupMethodByName(e.T, "As")
+				if r, ok := st.callFunc(c, token.NoPos, m, []Value{e.V, target}).(*Term); ok && st.decide(r) {
+					return TrueT
+				}
+			}
+			e = st.errUnwrap(c, e)
+		}
+		return FalseT
+	})
 	in("strconv.Itoa", func(st *State, c *frame, fn *ssa.Function, a []Value) Value {
 		return strconv.Itoa(int(st.concInt(a[0].(*Term), "itoa")))
 	})
@@ -542,10 +574,35 @@ func sortSliceIntrinsic(st *State, c *frame, fn *ssa.Function, a []Value) Value 
 		panic(unsupported("sort.Slice of non-slice"))
 	}
 	less := a[1]
-	st.insertionSort(len(s.A), func(i, j int) bool {
+	lessFn := func(i, j int) bool {
 		return st.decide(st.callFunc(c, token.NoPos, less, []Value{BVC(64, uint64(i)), BVC(64, uint64(j))}).(*Term))
-	}, func(i, j int) { s.A[i], s.A[j] = s.A[j], s.A[i] })
+	}
+	swap := func(i, j int) { s.A[i], s.A[j] = s.A[j], s.A[i] }
+	st.insertionSort(len(s.A), lessFn, swap)
+	if st.eng.cfg.UnstableSort && fn.Name() == "Slice" {
+		st.permuteTies(len(s.A), lessFn, swap)
+	}
 	return nil
+}
+
+// permuteTies models that sort.Slice / sort.Sort are not stable: after the
+// (stable) sort every maximal run of elements that compare equal is either kept
+// or reversed, by choice. Any order of ties is allowed by the contract; the
+// real implementation happens to be stable below 13 elements, so code that
+// relies on it only breaks for longer inputs — this model shows it for short ones.
+func (st *State) permuteTies(n int, less func(i, j int) bool, swap func(i, j int)) {
+	for i := 0; i < n; {
+		j := i + 1
+		for j < n && !less(j-1, j) {
+			j++
+		}
+		if j-i >= 2 && st.choose(2, "sort-ties") == 1 {
+			for a, b := i, j-1; a < b; a, b = a+1, b-1 {
+				swap(a, b)
+			}
+		}
+		i = j
+	}
 }
 
 // insertionSort: stable; a valid implementation of sort.Slice, SliceStable,
